@@ -63,7 +63,7 @@ def replaceFirst (needle instead : Bytes) : Bytes → Bytes
 /-- replace every occurrence of a non-empty `needle`, scanning from the left and continuing
 behind each replaced occurrence -/
 def replaceAll (needle instead : Bytes) (s : Bytes) : Bytes :=
-  if _h : needle = [] then s
+  if h : needle = [] then s
   else
     match s with
     | [] => []
